@@ -14,7 +14,11 @@ generator and Python's `random` seeded differently and consumed differently betw
 (and, for some histories, once more in a fresh interpreter with another PYTHONHASHSEED):
   * every output (samples, statistics, metric values, gradients) and the parameter vector after every
     operation must be bit-identical;
-  * a different seed must give different draws (>= 64 Bernoulli outcomes compared);
+  * a different seed must give different draws (>= 64 Bernoulli outcomes compared); and per OPERATION: each sampling entry point
+    (sample, rbm.gibbs_steps, Observable.sample / statistics, System.statistics, ObservableEvaluator, fit, compute_batch_gradients)
+    executed from the same parameters under two seeds draws different configurations (observed through a user subclass of the
+    observable whose apply() notes the samples it is handed) and leaves the generator in different states; comparisons are skipped
+    when fewer than 2**20 outcomes are possible or the state's own distribution makes a coincidence likelier than 2**-20;
   * the parameter bytes before / after every read-only operation must be identical;
   * no callback hook (evaluators, stoppers, loggers, savers, timers) changes a parameter: called directly as read-only
     operations, and sandwiched between two parameter probes inside fit;
@@ -39,7 +43,12 @@ if __name__ == "__main__":
 import common
 import translate_effects as TE
 
-RULE = ("fixed cases first (no time budget applies to them; the most discriminating at the very start): per state kind one FAULT history -- "
+RULE = ("fixed cases first (no time budget applies to them; the most discriminating at the very start): per state kind one SEED-DEPENDENCE "
+        "history (every sampling entry point -- sample with default / given start, the RBM's gibbs_steps, Observable.sample / statistics, "
+        "System.statistics, ObservableEvaluator directly and inside fit [once with lr = 0], fit, compute_batch_gradients -- with >= 2**20 "
+        "possible draws); for EVERY history an extra pass executes each sampling operation three times on one object from the same parameters, after "
+        "set_random_seed(s1), (s2), (s1) -- first and third execution must be bit-identical (nothing survives the seeding call) --: the configurations drawn (as handed to a user subclass of the observable), the "
+        "trained parameters / gradients and the generator state afterwards must differ per operation; then per state kind one FAULT history -- "
         "each kind of scripted fault (a user metric / callback hook / LambdaCallback function / observable (plain, composite, "
         "in a System, in ObservableEvaluator) / logger_fn / msg_gen / ModelSaver metadata function / optimizer / scheduler class raises at "
         "its n-th call, as an ordinary exception or as a KeyboardInterrupt, alternating with the state kind; invalid arguments of sample / "
@@ -90,6 +99,18 @@ ASSUMPTIONS = [
     "set / restore pair split over helper functions, or a library function that changes such a setting on purpose, is an expected "
     "false alarm (fail closed). Writes at module top level (import time) are recorded on the module's <toplevel> node, which no "
     "public operation reaches: after the import the setting is the same for every run",
+    "'a different seed yields different draws' is evaluated per sampling OPERATION (same parameters, set_random_seed(s1) / (s2)) "
+    "only when a coincidence is negligible: at least 2**20 possible outcomes AND rows * -log2(sum_v p(v)**2) >= 20 with p the state's "
+    "own exact distribution (for compute_batch_gradients: the exact collision probability of the MULTISET of negative-phase rows under "
+    "p, since a gradient is a sum over rows); chains after few Gibbs steps are taken to be no more concentrated than p. The draws of "
+    "Observable.sample / statistics, System.statistics and ObservableEvaluator are observed through a user subclass of the library "
+    "observable whose apply() notes the samples it is handed. fit's shuffling cannot be told apart from its negative phase from "
+    "outside: the trained parameters are compared (lr > 0). Scripted-fault operations are not probed per operation, and no draw / "
+    "gradient / trained-parameter comparison is made when a parameter is non-finite before or after the operation (a NaN / inf entry "
+    "poked by the harness, e.g. into the phase network, turns every trained parameter into NaN under every seed)",
+    "that System.statistics and Observable.statistics started from the same seed and parameters draw the SAME chains is not demanded "
+    "(two different operations; the property only relates identical operation sequences): it holds on the unchanged tree and is "
+    "recorded in the input histogram (System.statistics_draws_the_chains_of_Observable.statistics:True/False) only",
     "faults are raised only inside callables supplied by the harness or by invalid arguments; faults injected into the library's own "
     "code (out of memory, a signal between two arbitrary bytecodes) are not generated",
     "expected false alarms (by design, fail closed): any time.* / datetime.* outside callbacks/timer.py (e.g. a timestamp in Logger "
@@ -694,6 +715,8 @@ def gen_op(rng, kind, nv, name, thorough):
         if rng.random() < 0.3:
             op["init"] = _bits(rng, min(op["n"], 6), nv)
             op["overwrite"] = bool(rng.random() < 0.5)
+            if rng.random() < 0.35:
+                op["rbm_level"] = True           # the RBM's own public sampler: st.rbm_am.gibbs_steps(k, start)
     elif name in ("obs_sample", "statistics", "system_statistics"):
         op["obs"] = [str(x) for x in rng.choice(OBS, size=(1 if name != "system_statistics" else int(rng.integers(1, 4))), replace=False)]
         op["A"] = sorted(int(a) for a in rng.choice(nv, size=int(rng.integers(1, nv)), replace=False)) if nv > 1 else [0]
@@ -718,6 +741,7 @@ def gen_op(rng, kind, nv, name, thorough):
         op["extra_callbacks"] = sorted(str(c) for c in rng.choice(["saver", "saver_fn", "early", "logger", "lambda"],
                                                                   size=int(rng.integers(0, 4)), replace=False))
         op["scheduler"] = bool(rng.random() < 0.2)
+        op["eval_n"] = int(rng.choice([6, 12, 24]))            # chains of the ObservableEvaluator (if one is attached)
     elif name == "evaluate":
         op["what"] = str(rng.choice(["probability", "psi_or_rho", "normalization", "amplitude_phase", "compute_normalization",
                                      "subspace_vector", "rbm_level"]))
@@ -748,6 +772,7 @@ def gen_op(rng, kind, nv, name, thorough):
         op["which"] = str(rng.choice(HOOK_KINDS))
         op["epoch"] = int(rng.integers(1, 4))
         op["samples"] = _bits(rng, int(rng.integers(4, 9)), nv)
+        op["eval_n"] = int(rng.choice([6, 12, 24]))
     elif name == "fault":
         n = int(rng.integers(6, 14))
         op = fault_op(str(rng.choice(FAULT_WHERE)), str(rng.choice(["error", "interrupt"])), int(rng.integers(1, 4)),
@@ -828,11 +853,44 @@ def unknown_numeric_options(fn, known, value):
     return out
 
 
+def sampling_kind(op):
+    """the sampling entry point an operation of the grammar goes through (None: it draws nothing from the generator)."""
+    n = op["op"]
+    if n in ("sample", "obs_sample", "statistics", "system_statistics", "fit"):
+        return n
+    if n == "callback_hook" and op.get("which") in ("observable", "list"):
+        return "observable_evaluator"
+    if n == "gradient" and op.get("what") == "batch":
+        return "batch_gradients"            # compute_batch_gradients draws the negative phase (k Gibbs steps from `neg`)
+    return None
+
+
+def multiset_collision_bits(p, rows):
+    """-log2 of the probability that two independent samples of `rows` configurations drawn from the distribution p (list) form
+    the same MULTISET (what a sum over the rows, e.g. a negative-phase gradient, can at most tell apart):
+    sum_h multinomial(h; p)**2 = (rows!)**2 [x**rows] prod_i sum_j (p_i**2 x)**j / (j!)**2.  0.0 if not computable."""
+    import numpy as np, math
+    if rows < 1 or rows > 64 or not p:
+        return 0.0
+    acc = np.zeros(rows + 1)
+    acc[0] = 1.0
+    for pi in p:
+        ser = np.array([math.exp(2 * j * math.log(pi) - 2 * math.lgamma(j + 1)) if pi > 0 else float(j == 0) for j in range(rows + 1)])
+        acc = np.convolve(acc, ser)[:rows + 1]
+    v = acc[rows]
+    if not (v > 0) or not math.isfinite(v):
+        return 0.0
+    return max(0.0, -(math.log2(v) + 2 * math.lgamma(rows + 1) / math.log(2)))
+
+
 class Runner:
     """executes one history on a fresh state; collects outputs, parameter digests, hits per operation."""
 
-    def __init__(self, hist, workdir, perturb=0, record_hits=True):
+    def __init__(self, hist, workdir, perturb=0, record_hits=True, seed_probe=None):
         self.h, self.workdir, self.perturb, self.record_hits = hist, workdir, perturb, record_hits
+        self.seed_probe = seed_probe    # (s1, s2): every sampling operation is executed from the SAME parameters under both seeds
+        self.seed_dep = []          # per probed sampling operation: what coincided under the two seeds (see probe_op)
+        self.rec = None             # draws handed to recording observables (probe pass only)
         self.outputs = []           # per op: canonical output
         self.params = []            # per op: parameter digest after the op
         self.ro_changes = []        # (index, op) read-only operations that changed the parameters
@@ -946,8 +1004,11 @@ class Runner:
             self.perturb_foreign(i + 1)
             before = param_bytes(st)
             self.cur_label = op_label(h, i + 1)
-            entries, thunk = self.dispatch(op, i)
-            out = self.timed(entries, thunk)
+            if self.seed_probe is not None and sampling_kind(op):
+                out = self.probe_op(op, i)
+            else:
+                entries, thunk = self.dispatch(op, i)
+                out = self.timed(entries, thunk)
             st = self.st
             self.outputs.append(canon(out))
             after = param_bytes(st)
@@ -958,6 +1019,116 @@ class Runner:
         for key in _STATE.get("env_keys", ()):
             os.environ.pop(key, None)
         return self
+
+    # ---------------------------------------------------------------- seed dependence of one sampling operation
+    def wrap_obs(self, ob):
+        """probe pass only: a user subclass of the observable's class whose apply() notes the configurations it is handed (the
+        DRAWS of Observable.sample / statistics, System.statistics, ObservableEvaluator) and then does what the library's does."""
+        if self.rec is None:
+            return ob
+        import copy
+        cls, store = type(ob), self.rec
+
+        def apply(self_, nn_state, samples):
+            store.append(samples.detach().clone())
+            return cls.apply(self_, nn_state, samples)
+        new = copy.copy(ob)
+        new.__class__ = type(cls.__name__, (cls,), {"apply": apply, "__module__": cls.__module__})
+        return new
+
+    def collision_bits(self):
+        """-log2 sum_v p(v)**2 of the state's own distribution over the visible configurations (exact, nv <= 4): two independent
+        draws of one configuration coincide with probability 2**-this; 0.0 when the parameters are degenerate (poked)."""
+        import torch, math
+        st = self.st
+        try:
+            space = st.generate_hilbert_space()
+            p = st.probability(space, st.normalization(space)).detach().double().reshape(-1)
+            if not bool(torch.isfinite(p).all()) or abs(float(p.sum()) - 1.0) > 1e-6 or float(p.min()) < 0:
+                return 0.0
+            self.last_p = [float(x) for x in p]
+            return max(0.0, -math.log2(float((p * p).sum())))
+        except Exception:
+            return 0.0
+
+    def probe_op(self, op, i):
+        """the operation is executed twice from the SAME parameters, after qucumber.set_random_seed(s1) and after
+        qucumber.set_random_seed(s2); the history carries on from the second execution."""
+        import torch, qucumber, io, contextlib
+        s1, s2 = self.seed_probe
+        st0 = self.st
+        saved = [p_.detach().clone() for net in st0.networks for p_ in getattr(st0, net).parameters()]
+        self.last_p = None
+        hc = self.collision_bits()
+        runs = []
+        kind = sampling_kind(op)
+        for s in (s1, s2, s1):           # the third execution repeats the FIRST one on the same, by then twice used, object
+            st = self.st = st0
+            with torch.no_grad():
+                for p_, v in zip([p_ for net in st.networks for p_ in getattr(st, net).parameters()], saved):
+                    p_.copy_(v)
+            qucumber.set_random_seed(s, quiet=True)
+            self.rec = []
+            order = []
+            try:
+                entries, thunk = self.dispatch(op, i)
+                if kind == "fit" and callable(getattr(st, "compute_batch_gradients", None)):
+                    # the order of the training data, as handed to the state's own compute_batch_gradients by fit (noted only)
+                    inner = st.compute_batch_gradients
+
+                    def noting(k_, samples_batch, neg_batch, *a_, **kw_):
+                        order.append([samples_batch.detach().clone(), canon(list(a_)), canon(kw_)])
+                        return inner(k_, samples_batch, neg_batch, *a_, **kw_)
+                    st.compute_batch_gradients = noting
+                try:
+                    out = thunk()
+                except Exception as e:
+                    out = ["EXC", type(e).__name__]
+            finally:
+                rec, self.rec = self.rec, None
+                st.__dict__.pop("compute_batch_gradients", None)
+            if kind == "sample" and isinstance(out, torch.Tensor):
+                rec = [out.detach().clone()]
+            rows = sum(int(t.numel() // max(1, t.shape[-1])) for t in rec)
+            finite = all(bool(torch.isfinite(p_).all()) for net in self.st.networks for p_ in getattr(self.st, net).parameters())
+            runs.append({"order": canon(order) if order else None, "out": canon(out), "draws": canon(rec), "rows": rows, "bits": sum(int(t.numel()) for t in rec), "finite": finite,
+                         "rng": rng_digest(), "params": param_bytes(self.st), "exc": isinstance(out, list) and out[:1] == ["EXC"]})
+        a, b, c3 = runs
+        d = {"repeat_differs": [k_ for k_ in ("out", "draws", "params", "rng", "order") if a[k_] != c3[k_]],
+             "index": i, "kind": kind, "bits": min(a["bits"], b["bits"]), "eff_bits": min(a["rows"], b["rows"]) * hc,
+             "same_draws": a["draws"] == b["draws"], "same_out": a["out"] == b["out"], "same_rng": a["rng"] == b["rng"],
+             "exc": a["exc"] or b["exc"] or not (a["finite"] and b["finite"] and all(bool(torch.isfinite(v).all()) for v in saved)),
+             "same_params": a["params"] == b["params"], "collision_bits_per_row": round(hc, 3)}
+        if kind == "fit":
+            nb = -(-len(op["data"]) // op["pbs"])
+            d["fit_bits"] = op["epochs"] * nb * (op["nbs"] or op["pbs"]) * self.h["nv"] if op["lr"] > 0 else 0
+            d["fit_eff_bits"] = op["epochs"] * nb * (op["nbs"] or op["pbs"]) * hc if op["lr"] > 0 else 0.0
+            # number of distinguishable orders of the data rows (rows that coincide, bases included, cannot be told apart)
+            import math, collections
+            rows_ = [json.dumps([r_, (op.get("bases") or [None] * len(op["data"]))[q_] if self.h["kind"] != "positive" else None])
+                     for q_, r_ in enumerate(op["data"])]
+            d["order_bits"] = (math.lgamma(len(rows_) + 1) - sum(math.lgamma(m_ + 1) for m_ in collections.Counter(rows_).values())) / math.log(2)
+            d["order_noted"] = a["order"] is not None and b["order"] is not None
+            d["same_order"] = a["order"] == b["order"]
+        if kind == "batch_gradients":
+            d["grad_bits"] = multiset_collision_bits(self.last_p, len(op["neg"])) if hc > 0 else 0.0
+        if kind == "statistics" and not d["exc"]:
+            # informational: System(obs).statistics from the same seed and parameters is handed the same chains as obs.statistics
+            rng_keep = torch.get_rng_state()
+            try:
+                qucumber.set_random_seed(s2, quiet=True)
+                self.rec = []
+                _e, thunk = self.dispatch(dict(op, op="system_statistics"), i)
+                thunk()
+                d["system_draws_same_chains"] = canon(self.rec) == b["draws"]
+            except Exception:
+                d["system_draws_same_chains"] = None
+            finally:
+                self.rec = None
+                torch.set_rng_state(rng_keep)
+        self.seed_dep.append(d)
+        self.hits.append(([], set()))
+        return out
 
     # ---------------------------------------------------------------- one operation
     def dispatch(self, op, i):
@@ -985,16 +1156,19 @@ class Runner:
             return [T.reinitialize_parameters], lambda: st.reinitialize_parameters()
         if name == "sample":
             init = dbl(op["init"]) if "init" in op else None
+            if op.get("rbm_level") and init is not None:
+                return [type(st.rbm_am).gibbs_steps], lambda: st.rbm_am.gibbs_steps(op["k"], init, overwrite=op.get("overwrite", False))
             return [T.sample], lambda: st.sample(k=op["k"], num_samples=op["n"], initial_state=init, overwrite=op.get("overwrite", False))
         if name == "obs_sample":
-            ob = make_obs(op["obs"][0], op["A"])
+            ob = self.wrap_obs(make_obs(op["obs"][0], op["A"]))
             return [type(ob).sample, type(ob).apply], lambda: ob.sample(st, k=op["k"], num_samples=op["n"])
         if name == "statistics":
-            ob = make_obs(op["obs"][0], op["A"])
+            ob = self.wrap_obs(make_obs(op["obs"][0], op["A"]))
             return [type(ob).statistics, type(ob).apply], lambda: ob.statistics(st, num_samples=op["n"], num_chains=op["chains"],
                                                                                burn_in=op["burn_in"], steps=op["steps"])
         if name == "system_statistics":
             obs = [make_obs(o, op["A"]) for o in op["obs"]]
+            obs[0] = self.wrap_obs(obs[0])
             sysm = System(*obs)
             return [System.statistics] + [type(o).apply for o in obs], lambda: sysm.statistics(
                 st, num_samples=op["n"], num_chains=op["chains"], burn_in=op["burn_in"], steps=op["steps"])
@@ -1260,7 +1434,8 @@ class Runner:
         ep = op.get("epoch", 1)
         which = op["which"]
         me = C.MetricEvaluator(1, {"NLL": ts.NLL}, verbose=bool(ep % 2), samples=data, space=st.generate_hilbert_space())
-        oe = C.ObservableEvaluator(1, [SigmaZ(), SigmaX()], verbose=bool(ep % 2), num_samples=6, burn_in=2, steps=1)
+        oe = C.ObservableEvaluator(1, [self.wrap_obs(SigmaZ()), SigmaX()], verbose=bool(ep % 2), num_samples=op.get("eval_n", 6),
+                                   burn_in=2, steps=1)
         if which == "metric":
             cbs = [me]
         elif which == "observable":
@@ -1381,7 +1556,8 @@ class Runner:
         evs = []
         c = op["callbacks"][0]
         if c in ("obs", "both"):
-            e = ObservableEvaluator(1, [SigmaZ(), SigmaX()], verbose=False, num_samples=6, burn_in=2, steps=1)
+            e = ObservableEvaluator(1, [self.wrap_obs(SigmaZ()), SigmaX()], verbose=False, num_samples=op.get("eval_n", 6),
+                                    burn_in=2, steps=1)
             cbs.append(e)
             evs.append(("obs", e))
         if c in ("metric", "both"):
@@ -1568,6 +1744,47 @@ def check_history(ctx, h, subprocess_too=False, count=True, other_seed=True):
             ctx.require("a different seed gives different Bernoulli draws (>= 64 outcomes)", a.outputs[i + 1] != c.outputs[i + 1],
                         dict(case, other_seed=h2["seed"], operation=op_label(h, i + 1)), "samples identical")
         ctx.traces += 1
+        # ---- per OPERATION: every sampling entry point executed from the same parameters under two different seeds
+        s1 = h["seed"] + 11 + h["seed"] % 5
+        s2 = s1 + 1 + h["seed"] % 3
+        e = Runner(h, os.path.join(wd, "e"), perturb=0, record_hits=False, seed_probe=(s1, s2)).run()
+        seen = set()
+        for d_ in e.seed_dep:
+            lab = op_label(h, d_["index"] + 1)
+            pc = dict(case, operation=lab, entry_point=d_["kind"], probe_seeds=[s1, s2])
+            checks = [(W_OP_RNG, True, not d_["same_rng"], "generator state after the operation identical for both seeds"),
+                      (W_OP_REPEAT, True, not d_["repeat_differs"], {"differs_between_the_two_identically_seeded_executions": d_["repeat_differs"]})]
+            if d_["kind"] == "fit" and d_.get("order_noted"):
+                checks.append((W_OP_ORDER, (not d_["exc"]) and d_["order_bits"] >= MIN_DRAW_BITS, not d_["same_order"],
+                               {"log2_distinguishable_orders_of_the_data": round(d_["order_bits"], 1)}))
+            big = (not d_["exc"]) and d_["bits"] >= MIN_DRAW_BITS and d_["eff_bits"] >= MIN_DRAW_BITS
+            if d_["kind"] == "batch_gradients":
+                checks.append((W_OP_GRAD, (not d_["exc"]) and d_["grad_bits"] >= MIN_DRAW_BITS, not d_["same_out"],
+                               {"negative_phase_rows": len(h["ops"][d_["index"]]["neg"]),
+                                "log2_collision_probability_of_the_multiset_of_rows_about": -round(d_["grad_bits"], 1)}))
+            elif d_["kind"] != "fit" or d_["bits"]:
+                checks.append((W_OP_DRAWS, big, not d_["same_draws"],
+                               {"binary_outcomes_compared": d_["bits"], "log2_collision_probability_at_most": -round(d_["eff_bits"], 1),
+                                "outputs_identical_too": d_["same_out"]}))
+            if d_["kind"] == "fit":
+                bigf = (not d_["exc"]) and d_["fit_bits"] >= MIN_DRAW_BITS and d_["fit_eff_bits"] >= MIN_DRAW_BITS
+                checks.append((W_OP_FIT, bigf, not d_["same_params"],
+                               {"negative_phase_outcomes": d_["fit_bits"], "log2_collision_probability_at_most": -round(d_["fit_eff_bits"], 1)}))
+            for (what, applies, ok, detail) in checks:
+                tag = {W_OP_RNG: "generator", W_OP_DRAWS: "draws", W_OP_FIT: "trained_parameters", W_OP_GRAD: "gradients",
+                       W_OP_REPEAT: "same_object_repeat", W_OP_ORDER: "data_order"}[what]
+                if not applies:
+                    ctx.count("seed_dependence:%s:%s:skipped_fewer_than_2**%d_outcomes" % (d_["kind"], tag, MIN_DRAW_BITS))
+                    continue
+                ctx.count("seed_dependence:%s:%s:compared" % (d_["kind"], tag))
+                if ok or (what, d_["kind"]) not in seen:
+                    ctx.require(what, ok, pc, detail)
+                if not ok:
+                    seen.add((what, d_["kind"]))
+            if d_.get("system_draws_same_chains") is not None:
+                # not demanded by the property (two different operations); true on the unchanged tree, recorded only
+                ctx.count("System.statistics_draws_the_chains_of_Observable.statistics:" + str(bool(d_["system_draws_same_chains"])))
+        ctx.traces += 1
     # ---- read-only operations leave the parameters untouched
     for r in (a, b):
         for (i, opn, what) in r.ro_changes[:1]:
@@ -1620,6 +1837,24 @@ def check_history(ctx, h, subprocess_too=False, count=True, other_seed=True):
     return len(ctx.failures) + len(ctx.disagreements) - n0
 
 
+MIN_DRAW_BITS = 20          # a comparison of draws is skipped when fewer than 2**20 outcomes are possible / likely enough
+W_OP_RNG = ("a different seed leaves torch's generator in a different state after each sampling operation executed from the same "
+            "parameters (per operation: sample, Observable.sample / statistics, System.statistics, ObservableEvaluator, fit)")
+W_OP_DRAWS = ("a different seed yields different draws in EVERY sampling operation: executed from the same parameters after "
+              "set_random_seed(s1) / set_random_seed(s2), the configurations drawn by sample or handed to the observables by "
+              "Observable.sample / statistics, System.statistics, ObservableEvaluator (directly and inside fit) differ (compared "
+              "only when at least 2**20 outcomes are possible and the state's own distribution makes a coincidence less likely than 2**-20)")
+W_OP_FIT = ("a different seed yields different shuffling / negative-phase draws in fit: from the same parameters, the trained "
+            "parameters under set_random_seed(s1) / set_random_seed(s2) differ (lr > 0, at least 2**20 negative-phase outcomes)")
+W_OP_REPEAT = ("on ONE long-lived state object, set_random_seed(s) followed by the same sampling operation from the same parameters gives "
+               "bit-identical outputs, draws, trained parameters, data order and generator state when repeated (nothing that the object "
+               "or the library keeps between calls survives the seeding call)")
+W_OP_ORDER = ("a different seed yields a different order of the training data in fit (the batches fit hands to the state's "
+              "compute_batch_gradients, from the same parameters under set_random_seed(s1) / (s2); compared only when the rows admit at "
+              "least 2**20 distinguishable orders)")
+W_OP_GRAD = ("a different seed yields different negative-phase draws in compute_batch_gradients: from the same parameters and "
+             "arguments the gradients under set_random_seed(s1) / set_random_seed(s2) differ (compared only when the multiset of "
+             "negative-phase rows coincides with probability below about 2**-20 under the state's own distribution)")
 W_PROBE = ("a seeded run gives bit-identical outputs before and after the history ran in the same process (nothing a history leaves "
            "behind -- e.g. after an exception inside a user callback / metric / observable -- may reach later seeded runs)")
 W_PROC = ("every library call leaves the process-wide settings as it found them (torch default dtype / device / threads / deterministic "
@@ -1737,6 +1972,41 @@ def fixed_histories():
     return out
 
 
+def seed_dependence_histories():
+    """per state kind: EVERY sampling entry point with enough draws for the per-operation comparison under two seeds (sample with the
+    default and with a given start, Observable.sample / statistics, System.statistics with one and with several time steps, the
+    ObservableEvaluator called directly and inside fit -- once with lr = 0, so that both seeds evaluate the same parameters --,
+    fit's own shuffling / negative phase), on fresh and on trained parameters."""
+    data = [[0.0, 1.0, 1.0], [1.0, 0.0, 1.0], [1.0, 1.0, 0.0], [0.0, 0.0, 1.0], [1.0, 1.0, 1.0], [0.0, 1.0, 0.0], [1.0, 0.0, 0.0], [0.0, 0.0, 0.0]]
+    bases = [["Z", "Z", "Z"], ["Z", "Z", "Z"], ["X", "Z", "Y"], ["Z", "X", "Z"], ["Y", "Y", "Z"], ["Z", "Z", "X"], ["X", "X", "X"], ["Z", "Y", "Z"]]
+    fit = {"op": "fit", "data": data, "bases": bases, "epochs": 2, "pbs": 3, "nbs": 4, "k": 2, "lr": 0.05, "optimizer": "SGD",
+           "time": False, "callbacks": ["obs"], "extra_callbacks": [], "scheduler": False, "eval_n": 24}
+    out = []
+    data3, bases3, fit3 = data, bases, fit
+    for j, kind in enumerate(KINDS):
+        nv = 3 if kind == "density" else 4              # 4 sites: a sum over 64 negative-phase rows can take >= 2**20 values
+        data = [r + r[:nv - 3] for r in data3]
+        bases = [r + ["Z"] * (nv - 3) for r in bases3]
+        fit = dict(fit3, data=data, bases=bases)
+        obs = [["SigmaZ"], ["SigmaX"], ["Neighbour"]][j]
+        st_kw = {"obs": obs, "A": [0], "k": 2, "n": 30, "chains": 10, "burn_in": 3, "steps": 1}
+        ops = [{"op": "sample", "k": 2, "n": 24},
+               dict(st_kw, op="system_statistics", obs=obs + ["SWAP"]),
+               dict(st_kw, op="statistics"),
+               dict(st_kw, op="obs_sample"),
+               {"op": "callback_hook", "which": "observable", "epoch": 1, "samples": data[:6], "eval_n": 24},
+               fit,
+               dict(fit, lr=0.0, epochs=1, callbacks=["both"]),
+               dict(st_kw, op="system_statistics", chains=0, n=16),
+               {"op": "sample", "k": 1, "n": 12, "init": (data + data)[:12], "overwrite": bool(j % 2)},
+               {"op": "callback_hook", "which": "list", "epoch": 2, "samples": data[:6], "eval_n": 12},
+               dict(st_kw, op="statistics", chains=0, n=12, obs=["Sum"]),
+               {"op": "sample", "k": 2, "n": 16, "init": (data + data)[:16], "overwrite": False, "rbm_level": True},
+               {"op": "gradient", "what": "batch", "samples": data[:4], "neg": (data * 8)[:64], "bases": bases[:4], "k": 2}]
+        out.append({"kind": kind, "nv": nv, "nh": 2, "na": 2, "seed": 31337 + 5 * j, "seed_flags": {"cpu": True, "gpu": False}, "ops": ops})
+    return out
+
+
 def fault_histories():
     """FAULT followed by ordinary operations, per state kind: every kind of user-supplied callable (and every kind of invalid
     argument) fails once, as an ordinary exception and as a KeyboardInterrupt (alternating with the state kind); before and after
@@ -1801,8 +2071,10 @@ def weights_for(viol):
 
 def run(ctx):
     try:
-        if ctx.thorough and ctx.coq and ctx.coq.get("ok"):
-            _coqchk(ctx)            # still under the lock: coqchk reads generated/EffectsGen.vo
+        if ctx.thorough and ctx.coq and ctx.coq.get("ok") and "coqchk_ok" not in ctx.extra:
+            # still under the lock: coqchk reads generated/EffectsGen.vo.  Once only: the thorough tier's second (no_grad) pass calls
+            # run() again AFTER the lock was released, and a concurrent run on another tree may be rewriting generated/ by then
+            _coqchk(ctx)
     finally:
         _release_lock()
     viol = static_report(ctx)
@@ -1818,6 +2090,9 @@ def run(ctx):
     # the callbacks' hooks; then seed pairs from every regime and re-seeding
     pairs = seed_pairs(rng)
     proc_baseline()
+    for h in seed_dependence_histories():
+        check_history(ctx, h)
+        ctx.count("fixed_seed_dependence_history")
     for h in fault_histories():
         check_history(ctx, h)
         ctx.count("fixed_fault_history")
@@ -1901,7 +2176,7 @@ def shrink(ctx, rec):
         saved = (ctx.failures, ctx.disagreements, ctx.known_hits, ctx.evaluations, ctx.traces, dict(ctx.hist))
         ctx.failures, ctx.disagreements, ctx.known_hits = [], [], []
         try:
-            check_history(ctx, hh, subprocess_too=("PYTHONHASHSEED" in what), count=False, other_seed=("different seed" in what))
+            check_history(ctx, hh, subprocess_too=("PYTHONHASHSEED" in what), count=False, other_seed=("different seed" in what or "long-lived" in what))
             got = [f for f in ctx.failures if f["what"] == what]
         except Exception:
             got = []
